@@ -629,6 +629,61 @@ def _crash_stop_job(args):
         shutil.rmtree(d, ignore_errors=True)
 
 
+SCRIPT_OFF_END = r"""
+import sys, time, warnings
+warnings.simplefilter("ignore")
+sys.path.insert(0, sys.argv[1])
+from auditok.util import AudioReader
+from auditok.workers import TokenizerWorker, Worker
+out_file, nev, delay = sys.argv[2], int(sys.argv[3]), float(sys.argv[4])
+W_ = 10
+data = b"".join((b"\x10\x27" * W_) * 2 + (b"\0\0" * W_) * 2 for _ in range(nev))
+
+class Slow(Worker):
+    def _process_message(self, message):
+        time.sleep(delay)
+        with open(out_file, "a") as fp:
+            fp.write("%d\n" % message[0])
+
+reader = AudioReader(data, block_dur=0.01, sr=1000, sw=2, ch=1)
+obs = [Slow(timeout=0.05) for _ in range(int(sys.argv[5]))]
+tok = TokenizerWorker(reader, obs, min_dur=0.01, max_dur=1, max_silence=0, energy_threshold=50)
+tok.start_all()
+tok.join()            # the stream has ended; the script simply ends here, the observers still have a backlog
+with open(out_file + ".n", "w") as fp:
+    fp.write(str(len(tok.detections)))
+"""
+
+
+def _script_off_end_job(args):
+    """C12 for a program that starts the workers, waits for the tokenizer only and runs off the end of its script: every observer
+    still processes every detection and the threads end by themselves (the interpreter exits)"""
+    idx, nev, delay, nobs = args
+    import subprocess
+    d = os.path.join(C.TMP, "offend_%d_%d" % (os.getpid(), idx))
+    os.makedirs(d, exist_ok=True)
+    try:
+        out = os.path.join(d, "seen.txt")
+        info = {"detections_in_stream": nev, "observer_delay_s": delay, "observers": nobs}
+        try:
+            cp = subprocess.run([sys.executable, "-c", SCRIPT_OFF_END, C.REPO, out, str(nev), str(delay), str(nobs)], capture_output=True, text=True, timeout=60 + nev * delay * 4)
+        except subprocess.TimeoutExpired:
+            return info, "a script that starts a TokenizerWorker with %d slow observer(s) on a %d-detection stream, joins the tokenizer and ends did not exit within the time limit: a worker thread never ends" % (nobs, nev)
+        if cp.returncode != 0 or not os.path.exists(out + ".n"):
+            return info, None        # the script itself failed (environment): not a statement about the property
+        n = int(open(out + ".n").read())
+        seen = [int(x) for x in open(out).read().split()] if os.path.exists(out) else []
+        want = sorted(list(range(1, n + 1)) * nobs)
+        if n != nev:
+            return info, None
+        if sorted(seen) != want:
+            return info, "a script that starts a TokenizerWorker with %d slow observer(s), waits for the tokenizer only and then ends: the observers processed %d of the %d x %d detections before the interpreter exited (ids %r...)" % (
+                nobs, len(seen), nobs, n, seen[:10])
+        return info, None
+    finally:
+        shutil.rmtree(d, ignore_errors=True)
+
+
 def _two_savers_job(args):
     """C13 with two stream savers alive in the same process (two recordings at once): each file holds exactly its own stream"""
     idx, n1, n2, cache_sec, seed_ = args
@@ -818,6 +873,13 @@ def run(prop, tier):
         hist["stop_after_tokenizer_crash_runs"] = len(kj)
         hist["cli_interrupt_runs"] = len(cli_runs)
         hist["cli_interrupted_mid_stream"] = sum(1 for c in cli_runs if c.get("blocks_read", 10 ** 9) < len(c["pattern"]))
+    if prop == "C12":
+        oj = [(i, r.randint(3, 12), r.choice([0.01, 0.03, 0.05]), r.choice([1, 2])) for i in range(4 if quick else 24)]
+        with mp.get_context("fork").Pool(min(C.NCPU, 4)) as pool:
+            for res_o, what in pool.imap_unordered(_script_off_end_job, oj, chunksize=1):
+                if what and "C12" not in violations:
+                    violations["C12"] = {"what": what, "script_run": res_o}
+        hist["scripts_running_off_their_end"] = len(oj)
     if prop == "C13":
         tj = [(i, r.randint(1, 30), r.randint(1, 30), r.choice([0, BD / 2, BD, 3.3 * BD, 100.0]), r.randrange(1 << 30)) for i in range(8 if quick else 80)]
         with mp.get_context("fork").Pool(min(C.NCPU, 8)) as pool:
